@@ -5,10 +5,11 @@ package fsutil
 
 import (
 	"os"
+	"syscall"
 
 	"github.com/pkg/errors"
 )
 
 func isNotFound(err error) bool {
-	return errors.Is(err, os.ErrNotExist)
+	return errors.Is(err, os.ErrNotExist) || errors.Is(err, syscall.ENOTDIR)
 }
